@@ -115,13 +115,14 @@ CLAIMS["C10"] = {
             "behaviour: found by the enumeration, not by the theorem.",
 }
 CLAIMS["C09"] = {
-    "text": "The auditor rebuilds two trees with the real insertion algorithm; proved in Lean so far is that this algorithm computes "
-            "the canonical trie for every prefix-free node set in auditor mode (batchInsert_refines) and that a root hash determines "
-            "the trie (rootHash_injective). The soundness theorem itself (Thm/C09.lean: audit_sound for the repaired auditor, with "
-            "the kernel-checked witness that the pinned auditor accepted a shadowing node set, defect D2) is stated and being "
-            "proved; until it is an obligation the clause rests on the correspondence run: adversarially edited audit proofs are "
-            "verified by the real auditor (compared with the model's verdict) and an independent oracle checks that nothing "
-            "committed earlier is lost whenever a proof is accepted.",
+    "text": "Proved in Lean, full strength, for EVERY proof value: if the (repaired) auditor accepts a single-epoch proof against the root "
+            "hashes of two well-formed tries T1, T2 then every leaf of T1 (label, value commitment, insertion epoch) is a leaf of T2 "
+            "(audit_sound), lifted to audit_verify over any number of epochs (audit_verify_sound); inconsistent list lengths are "
+            "rejected; replacing a root hash makes verification fail. The proof goes through the refinement theorem (the auditor's "
+            "rebuild IS the real insertion algorithm: rebuildRoot_canonical) and a frontier lemma over Cfg.Lawful. The pinned auditor "
+            "was not sound: kernel-checked witnesses where both tries are well-formed, the legacy auditor accepts and a leaf is gone "
+            "(defect D2, repaired in /repo; the repaired check is characterised exactly by labelsPrefixFree_iff). The auditor model is "
+            "tied to the Rust by the adversarial correspondence run with an independent oracle.",
     "note": BASE_NOTE,
 }
 CLAIMS["C06"] = {
@@ -140,5 +141,14 @@ CLAIMS["C07"] = {
             "and an independent oracle. Known finding C07-F1 (tombstoned version-1 entry can be misdated) is confirmed on the real "
             "verifier and is the exception clause of the stated theorem.",
     "note": BASE_NOTE + "VRF modelled by its contract over an oracle table.",
+}
+CLAIMS["C14"] = {
+    "text": "Proved in Lean: the tree produced by the insertion algorithm does not depend on the order of the batch "
+            "(batchInsert_perm, through the refinement to the canonical trie and its uniqueness), under both configurations. The "
+            "model has no notion of task, cache, preload or object lifetime, so 'identical under every configuration' is, on the "
+            "model side, the statement that the implementation under EACH configuration corresponds to the ONE model run: the "
+            "check executes the same ops stream under an 18-entry matrix (parallelism x cache x restarts x read-only wrapper x "
+            "feature build) and compares every observation with the single model output, plus an order/sub-batch oracle.",
+    "note": BASE_NOTE + "Partial: tokio's scheduling of spawned tasks is sampled by real multi-thread runs, not enumerated.",
 }
 NOT_YET = {}
